@@ -1222,26 +1222,28 @@ where
 
         let mut fragments = C::new();
 
-        // whether to read the fragment as the basic offset table (true)
-        // or as a pixel data fragment (false)
-        let mut first = true;
+        // whether the item being read has yielded a value token
+        // (an item of length zero yields none)
+        let mut item_has_value = false;
 
         while let Some(token) = dataset.advance() {
             let token = token.context(ReadTokenSnafu)?;
             match token {
                 LazyDataToken::LazyItemValue { decoder, len } => {
-                    if first {
+                    // the first item is the basic offset table,
+                    // every other item is a pixel data fragment
+                    if offset_table.is_none() {
                         let mut table = Vec::new();
                         decoder
                             .read_u32_to_vec(len, &mut table)
                             .context(ReadItemSnafu)?;
                         offset_table = Some(table);
-                        first = false;
                     } else {
                         let mut data = Vec::new();
                         decoder.read_to_vec(len, &mut data).context(ReadItemSnafu)?;
                         fragments.push(data);
                     }
+                    item_has_value = true;
                 }
                 LazyDataToken::ItemEnd => {
                     // at the end of the first item ensure the presence of
@@ -1249,7 +1251,11 @@ where
                     // are seen as compressed fragments
                     if offset_table.is_none() {
                         offset_table = Some(Vec::new())
+                    } else if !item_has_value {
+                        // a zero-length item after the offset table is an empty fragment
+                        fragments.push(Vec::new());
                     }
+                    item_has_value = false;
                 }
                 LazyDataToken::ItemStart { len: _ } => { /* no-op */ }
                 LazyDataToken::SequenceEnd => {
